@@ -275,7 +275,7 @@ def r2(ctx):
             continue
         ctx.look()
         got = canon(r.to_terms) if isinstance(r.to_terms, ast.Lambda) else norm(r.to_terms)
-        ok = got == LAM.get(key) or got == ALT.get(key)
+        ok = got == LAM.get(key) or got.lstrip("_") == ALT.get(key)
         ctx.check(ok, "C16.R2", f"record {r.ident} applies its combinator to the operands in order", f"{f.module.relpath}:{r.line}",
                   ctx.construct(f, text=f"to_terms {r.symbol}/{r.arity}"), f"to_terms is `{got}`; expected `{LAM.get(key) or ALT.get(key)}`")
     SF = P.cls(MOD + ".ScaledFactor")
